@@ -94,7 +94,7 @@ static inline int cxx2c_vfop1 (int *a) { return __CPROVER_uninterpreted_vfop1 (*
 #endif
 
 /* ---- arithmetic on floating element types: the one place its meaning is chosen ---- */
-#ifdef CXX2C_ABS_ARITH
+#if defined(CXX2C_ABS_ARITH) && !defined(VF_NATIVE)
 /* mode ABS: + - * / are uninterpreted (congruence only) */
 float  __CPROVER_uninterpreted_addf (float, float);
 float  __CPROVER_uninterpreted_subf (float, float);
